@@ -35,7 +35,7 @@ ASSUMPTIONS = [
     "environment model bound to real sockets by ./check selftest",
 ]
 BOUNDS_DOC = {"quick": "M<=1, S<=2, R=0; T in {4}", "thorough": "M<=2, S<=3, trio R<=1; T in {0.5, 4}"}
-BUDGET = {"quick": 100, "thorough": 1500}
+BUDGET = {"quick": 300, "thorough": 1800}
 
 OK200 = {"type": "http.response.start", "status": 200, "headers": [(b"content-length", b"2")]}
 BODY = {"type": "http.response.body", "body": b"ok", "more_body": False}
